@@ -367,7 +367,7 @@ def exec_ckpt(spec):
                 res['fails'].append(('mps:checkpoint:reloaded-coefficients-differ-from-saved', '%s: theta_alpha after load_state_dict into a wrapper with sampling disabled is %r, the saved model evaluates %r' % (
                     n_, [[float(v) for v in c] for c in st['theta']], [[float(v) for v in c] for c in saved[n_]['theta']]), nops))
             # the model: a disabled sampler holding the SAVED coefficients
-            res['sel'][n_] = {'init': dict(saved[n_], name=st['name'], hard=st['hard'], T=st['T'], training=st['training'], gumbel=bool(g), disabled=True),
+            res['sel'][n_] = {'init': dict(saved[n_], name=st['name'], hard=st['hard'], T=st['T'], training=st['training'], gumbel=st['name'] == 'sample_alpha_gs', disabled=st['name'] == 'sample_alpha_none'),
                               'mops': [], 'steps': [], 'tab': [], 'margins': [], 'P': m.alpha.shape[0]}
         order = []
         hooks = [m.register_forward_pre_hook(lambda mod, inp, k=n_: order.append(k)) for n_, m in selB.items()]
